@@ -44,6 +44,8 @@ pub struct Hz {
     /// second-thread halt: gate opened at this invocation
     pub gate_at: Option<u64>,
     pub gate: Option<Arc<AtomicBool>>,
+    /// value the scripted `res` command handed back for its output variable (Continue / GoTo results), by invocation number
+    pub res_out: HashMap<u64, Option<String>>,
     /// generic per-property scratch
     pub counters: HashMap<String, i64>,
 }
